@@ -225,9 +225,11 @@ func runPortmap(t *testing.T, scAny any, trace bool) *Outcome {
 		defer pm.Stop()
 		w := NewWorld(o)
 		if len(sc.Mut) > 0 {
+			simrt.Probe("run_class.concurrent")
 			runPortmapConcurrent(o, sc, pm, w, port)
 			return
 		}
+		simrt.Probe("run_class.sequential")
 		model := map[pmKey]uint32{}
 		for _, v := range []uint32{2, 3, 4} {
 			model[pmKey{100000, v, 6}] = port
@@ -651,6 +653,71 @@ type CodecScn struct {
 	Seed  uint64   `json:"seed"`
 	N     int      `json:"n"`
 	Sched SchedCfg `json:"sched"`
+	Conc  bool     `json:"conc,omitempty"` // concurrent writers sharing one RecordMarkingWriter (the type documents a mutex)
+}
+
+// yieldingWriter hands the scheduler a decision point at every Write, as a socket would.
+type yieldingWriter struct{ buf bytes.Buffer }
+
+func (w *yieldingWriter) Write(p []byte) (int, error) {
+	simrt.Yield(simrt.ClassNet, "codec.write")
+	return w.buf.Write(p)
+}
+
+// codecConcurrentWriters: 2-3 tasks write records of their own through ONE RecordMarkingWriter (records that
+// need several fragments next to records that fit in one); what the independent reader then finds on the
+// stream must be exactly those records, each whole, in some order.
+func codecConcurrentWriters(o *Outcome, r *simrt.Rand) {
+	frag := []int{4, 16, 64, 512}[r.Int(4)]
+	yw := &yieldingWriter{}
+	w := absnfs.NewRecordMarkingWriterWithSize(yw, frag)
+	nt := 2 + r.Int(2)
+	recs := make([][][]byte, nt)
+	for t := range recs {
+		for i, n := 0, 1+r.Int(2); i < n; i++ {
+			l := []int{1, 3, frag - 1, frag, frag + 1, 3*frag + 2, 200}[r.Int(7)]
+			if l < 1 {
+				l = 1
+			}
+			d := randBytes(r, l)
+			d[0] = byte(t*16 + i) // every record distinguishable
+			recs[t] = append(recs[t], d)
+		}
+	}
+	done := make(chan int, nt)
+	for t := 0; t < nt; t++ {
+		t := t
+		simrt.Go(fmt.Sprintf("codec-writer-%d", t), func() {
+			defer simrt.Send("codec.done", done, t)
+			for _, d := range recs[t] {
+				w.WriteRecord(d)
+			}
+		})
+	}
+	for i := 0; i < nt; i++ {
+		simrt.Recv("codec.wait", done)
+	}
+	o.Checks++
+	want := map[string]int{}
+	total := 0
+	for _, rs := range recs {
+		for _, d := range rs {
+			want[string(d)]++
+			total++
+		}
+	}
+	rd := bytes.NewReader(yw.buf.Bytes())
+	for i := 0; i < total; i++ {
+		rec, err := nfsclient.ReadRecord(rd, 2<<20)
+		if err != nil || want[string(rec)] == 0 {
+			o.Vio("C13.concurrent-records-mangled", "", "%d tasks wrote %d records through one RecordMarkingWriter (maxFragment %d): record %d read back from the stream is %d bytes (err %v) and is not one of the records written whole", nt, total, frag, i, len(rec), err)
+			return
+		}
+		want[string(rec)]--
+	}
+	if rd.Len() != 0 {
+		o.Vio("C13.concurrent-records-mangled", "trailing", "%d bytes follow the %d records written", rd.Len(), total)
+	}
 }
 
 func allocDuring(f func()) uint64 {
@@ -675,6 +742,13 @@ func runCodec(t *testing.T, scAny any, trace bool) *Outcome {
 	res := Bubble(t, sc.Sched.config(trace), nil, func() {
 		simrt.Event("scenario %x", simrt.Hash(hashBytes(mustJSON(sc))))
 		r := simrt.NewRand(sc.Seed)
+		if sc.Conc {
+			simrt.Probe("run_class.concurrent_writers")
+			for i := 0; i < sc.N; i++ {
+				codecConcurrentWriters(o, r)
+			}
+			return
+		}
 		for i := 0; i < sc.N; i++ {
 			switch r.Int(7) {
 			case 5:
@@ -1105,8 +1179,13 @@ func init() {
 		Gen:  genC10, New: func() any { return &AuthScn{} }, Run: runAuth,
 		Real: []string{"ValidateAuthentication", "applySquashing", "ParseAuthSysCredential"}, Stubbed: []string{"nothing relevant (pure function)"}})
 	Register(&Prop{ID: "C13", Level: "exploration",
-		Rule: "one case = 40-200 codec exercises drawn from: DecodeRPCCall on calls encoded by the independent codec with credential/verifier body lengths 0..9, 399, 400, 401 and a sentinel tail (exact decode, exact consumption, over-limit refused); ParseAuthSysCredential with 0..18 and 100 gids and machine names of 0..5, 255, 8191..8193 bytes and random truncations; EncodeRPCReply decoded by the independent strict RFC 1831 decoder for every reply_stat/accept_stat; RecordMarkingWriter (maxFragment 1..1 MiB) read back by the independent reader and by RecordMarkingReader (identity, incl. records of limit-1 and limit bytes); RecordMarkingReader fed records split into up to 40 fragments (zero-length and 1-byte fragments included) through a reader returning arbitrary 1..7-byte segments, streams cut at every kind of offset (error, never a partial record), and headers declaring 1 MiB+1 .. 2^31-1 bytes (refused, with TotalAlloc growth < 512 KiB); non-trivial = at least one exercise; distinct by event digest. Also: the XDR string<8192> and file-handle opaque<64> decoders (reached through wrappers in the overlay accessor file) with every length 0..66, 8191..8193 and absurd declared lengths (exact value, exact padded consumption also for refused foreign-size handles, refusal before allocation); records whose 3-6 fragments are each within the limit but whose total exceeds 1 MiB (refused, TotalAlloc growth < 3 MiB).",
+		Rule: "one case = 40-200 codec exercises drawn from: DecodeRPCCall on calls encoded by the independent codec with credential/verifier body lengths 0..9, 399, 400, 401 and a sentinel tail (exact decode, exact consumption, over-limit refused); ParseAuthSysCredential with 0..18 and 100 gids and machine names of 0..5, 255, 8191..8193 bytes and random truncations; EncodeRPCReply decoded by the independent strict RFC 1831 decoder for every reply_stat/accept_stat; RecordMarkingWriter (maxFragment 1..1 MiB) read back by the independent reader and by RecordMarkingReader (identity, incl. records of limit-1 and limit bytes); RecordMarkingReader fed records split into up to 40 fragments (zero-length and 1-byte fragments included) through a reader returning arbitrary 1..7-byte segments, streams cut at every kind of offset (error, never a partial record), and headers declaring 1 MiB+1 .. 2^31-1 bytes (refused, with TotalAlloc growth < 512 KiB); non-trivial = at least one exercise; distinct by event digest. Also: the XDR string<8192> and file-handle opaque<64> decoders (reached through wrappers in the overlay accessor file) with every length 0..66, 8191..8193 and absurd declared lengths (exact value, exact padded consumption also for refused foreign-size handles, refusal before allocation); records whose 3-6 fragments are each within the limit but whose total exceeds 1 MiB (refused, TotalAlloc growth < 3 MiB). 12% of the cases are concurrent: 2-3 tasks write 1-2 records each (single- and multi-fragment) through ONE RecordMarkingWriter over a writer that yields to the seeded scheduler at every Write; the stream must then hold exactly those records, each whole, in some order.",
 		Gen: func(r *simrt.Rand, tier string) any {
+			if r.Pct(12) {
+				sc := &CodecScn{Seed: r.Uint64(), N: 1 + r.Int(4), Sched: RandSched(r), Conc: true}
+				sc.Sched.HorizonS = 600
+				return sc
+			}
 			return &CodecScn{Seed: r.Uint64(), N: 40 + r.Int(160), Sched: SeqSched(r.Uint64())}
 		}, New: func() any { return &CodecScn{} }, Run: runCodec,
 		Real: []string{"DecodeRPCCall", "EncodeRPCReply", "ParseAuthSysCredential", "RecordMarkingReader", "RecordMarkingWriter"}, Stubbed: []string{"byte streams are in-memory readers with seeded segmentation (simnet is used for the same code in C15)"}})
